@@ -373,7 +373,7 @@ package vuego
 
 // ---- evaluation family: frames and scope-stack balance (C04, C05, C06, C16 build on these) ----
 
-//@ macro BALANCED(c) = len(c.stack.stack) == old(len(c.stack.stack))
+//@ macro BALANCED(c) = len(c.stack.stack) == old(len(c.stack.stack)) && (forall bi int :: 0 <= bi && bi < len(c.stack.stack) ==> c.stack.stack[bi] == old(c.stack.stack[bi]))
 //@ modset caches(v) = contents(v.exprEval.programs), contents(pathCache.m)
 
 //@ func (v *Vue) callFunc(ctx, fn, args) (r, err)
@@ -444,7 +444,7 @@ package vuego
 
 //@ func (s *Stack) ForEach(expr, fn) (err)
 //@   trusted
-//@   ensures C04.foreach.balance: len(s.stack) == old(len(s.stack))
+//@   ensures C04.foreach.balance: len(s.stack) == old(len(s.stack)) && forall bi int :: 0 <= bi && bi < len(s.stack) ==> s.stack[bi] == old(s.stack[bi])
 
 //@ func (v *Vue) evalFor$1(index, value) (err)
 //@   holds ctx.stack
@@ -478,10 +478,10 @@ package vuego
 //@ func (v *Vue) evalInclude(ctx, node, vars, depth) (res, err)
 //@   holds ctx.stack
 //@   ensures C05.noleak: BALANCED(ctx)
-//@   loop 0 invariant C05.balance.loop: len(ctx.stack.stack) == old(len(ctx.stack.stack)) + 1
-//@   loop 1 invariant C05.balance.loop: len(ctx.stack.stack) == old(len(ctx.stack.stack)) + 1
+//@   loop 0 invariant C05.balance.loop: len(ctx.stack.stack) == old(len(ctx.stack.stack)) + 1 && (forall bi int :: 0 <= bi && bi < old(len(ctx.stack.stack)) ==> ctx.stack.stack[bi] == old(ctx.stack.stack[bi]))
+//@   loop 1 invariant C05.balance.loop: len(ctx.stack.stack) == old(len(ctx.stack.stack)) + 1 && (forall bi int :: 0 <= bi && bi < old(len(ctx.stack.stack)) ==> ctx.stack.stack[bi] == old(ctx.stack.stack[bi]))
 
 //@ func (v *Vue) evalSlot(ctx, node, slotScope) (res, err)
 //@   holds ctx.stack
 //@   ensures C06.balance: BALANCED(ctx)
-//@   loop 2 invariant C06.balance.loop: len(ctx.stack.stack) == old(len(ctx.stack.stack)) + 1
+//@   loop 2 invariant C06.balance.loop: len(ctx.stack.stack) == old(len(ctx.stack.stack)) + 1 && (forall bi int :: 0 <= bi && bi < old(len(ctx.stack.stack)) ==> ctx.stack.stack[bi] == old(ctx.stack.stack[bi]))
